@@ -469,7 +469,7 @@ def translate() -> tuple[str, dict]:
             ver = n.value.value
     if ver is None:
         raise TranslatorError("Community.version is not a bytes literal")
-    cinit = _fn(comc, "__init__")
+    cinit = _inline_private_helpers(comc, _fn(comc, "__init__"))     # e.g. the opt-in extracted into a helper
     pref = [s for s in ast.walk(cinit) if isinstance(s, ast.Assign) and len(s.targets) == 1
             and _is_self_attr(s.targets[0], "_prefix")]
     if len(pref) != 1 or ast.unparse(pref[0].value) != "b'\\x00' + self.version + self.community_id":
@@ -894,6 +894,14 @@ class _SendTr:
             if name == "circuit":
                 if not env.get("circuits") or mutated:
                     raise TranslatorError("send: `circuit` chosen before `circuits` is known")
+                loop = rest[0] if rest else None
+                if src == "None" and isinstance(loop, ast.For) and not loop.orelse and isinstance(loop.target, ast.Name) \
+                        and ast.unparse(loop.iter) == "circuits" and len(loop.body) == 1 and isinstance(loop.body[0], ast.If) \
+                        and not loop.body[0].orelse \
+                        and ast.unparse(loop.body[0].test) == f"{loop.target.id}.state == CIRCUIT_STATE_READY" \
+                        and [ast.unparse(b) for b in loop.body[0].body] == [f"circuit = {loop.target.id}", "break"]:
+                    # circuit = None; for x in circuits: if x.state == READY: circuit = x; break   ==   next(…, None)
+                    src, rest = "next((c for c in circuits if c.state == CIRCUIT_STATE_READY), None)", rest[1:]
                 if src == "next((c for c in circuits if c.state == CIRCUIT_STATE_READY), None)":
                     pick = "circuits.find? (fun c => c.state == .ready)"
                 elif src == "circuits[0] if circuits else None":
